@@ -15,7 +15,7 @@ CELLS = {'A2': 5, 'B2': 2.5, 'C2': 'ab', 'D2': True, 'A3': 0, 'B3': 12, 'C3': '3
 REFS = ['A2', 'B2', 'A3', 'B3', 'D3', 'E2', 'C2', 'D2', 'C3', '$A$2', 'B$3']
 NUMS = ['1', '2', '3', '7', '10', '100', '0', '12', '0.5', '2.25', '0.1', '1.1', '3e-1', '1.5e3', '2e2', '12.034e-2', '007', '1.50', '0.3', '4',
         '1.11e1', '1.16e1', '2.2222e3', '1.27e1', '2.14e1', '1.25e1']      # a fraction AND a positive exponent smaller than the number of fraction digits
-TEXTS = ['"ab"', '"x"', '""', '"3"', '"a  b"', '"  "', '" x "']          # blanks INSIDE a text literal are part of the text
+TEXTS = ['"ab"', '"x"', '""', '"3"', '"a  b"', '"  "', '" x "', '")"', '"(x"', '"1) "', '":("']          # blanks INSIDE a text literal are part of the text
 OV_VALUES = [0, 1, -4, 2.5, -0.75, 1e-3, 'q', '7', True, False, 3, 1000]
 CMP = ['=', '<>', '<', '<=', '>', '>=']
 PYCMP = {'==': 'OEq', '!=': 'ONe', '<': 'OLt', '<=': 'OLe', '>': 'OGt', '>=': 'OGe'}
